@@ -1,5 +1,6 @@
 import LassoProofs.C06
 import LassoModel.Extracted
+import LassoProofs.Lemmas.Config
 /-
   C18 — equality between interners and views means equal content, nothing else.
 
@@ -99,5 +100,12 @@ theorem eqThreaded_iff {env : Env} {a b : Threaded} (ha : ThreadedReach env a) (
 /-! ### Non-vacuity -/
 example : eqStrings (some [[1], [2]]) (some [[1], [2]]) = .ok true ∧ eqStrings (some [[1], [2]]) (some [[2], [1]]) = .ok false ∧
     eqStrings (some [[1]]) (some [[1], [2]]) = .ok false := by decide
+
+/-- The code this file's theorems are about is the same under every feature configuration: the regenerated
+census of conditional compilation contains import blocks, whole serde impls, optional-dependency impls and
+module declarations only, and no gate inside any function body (`Lemmas/Config.lean`). -/
+theorem same_code_under_every_feature_configuration :
+    (Extracted.cfgGates.all fun g => g.kind != .other) = true ∧ Extracted.bodyGates.isEmpty = true :=
+  Lasso.one_code_base_for_all_configurations
 
 end Lasso.C18
